@@ -81,15 +81,28 @@ pub fn install(path: &str, hang_secs: u64) {
         }
     }
     std::thread::spawn(move || {
+        // CPU time of this process: a subject that hangs spins; a machine that stalls (the whole VM paused for a
+        // snapshot, say) consumes none. No progress for `hang_secs` of wall time counts as a hang when the process also
+        // burnt at least half of that as CPU time - or when four times that long has passed however idle it was.
+        let cpu_now = || -> f64 {
+            let mut ts: libc::timespec = unsafe { std::mem::zeroed() };
+            unsafe { libc::clock_gettime(libc::CLOCK_PROCESS_CPUTIME_ID, &mut ts) };
+            ts.tv_sec as f64 + ts.tv_nsec as f64 * 1e-9
+        };
         let mut last = CASE_NO.load(Ordering::Relaxed);
         let mut since = std::time::Instant::now();
+        let mut cpu_since = cpu_now();
         loop {
             std::thread::sleep(std::time::Duration::from_millis(500));
             let now = CASE_NO.load(Ordering::Relaxed);
             if now != last {
                 last = now;
                 since = std::time::Instant::now();
-            } else if now > 0 && since.elapsed().as_secs() >= hang_secs && !PAUSED.load(Ordering::Relaxed) {
+                cpu_since = cpu_now();
+            } else if now > 0
+                && !PAUSED.load(Ordering::Relaxed)
+                && ((since.elapsed().as_secs() >= hang_secs && cpu_now() - cpu_since >= hang_secs as f64 / 2.0) || since.elapsed().as_secs() >= 4 * hang_secs)
+            {
                 dump(b"HANG");
                 unsafe { libc::_exit(71) }
             }
